@@ -174,12 +174,57 @@ def flatten_cases(ctx, stats):
     return out
 
 
+def hardware_cases(ctx, stats):
+    """The same product Einsums compiled WITH an architecture binding a leader-follower / two-finger / skip-ahead intersector
+    on a co-iterated rank (tools/specgen_hw.wrap_single): the loop nest must still compute the Einsum.  Executed against the
+    oracle; the static payload-order condition of tools/patterns.py is evaluated as well."""
+    import popgen
+    import specgen_hw
+    import patterns
+    rng = ctx.rng
+    out = []
+    stats["hardware"] = 0
+    for _ in range(110 if ctx.quick() else 800):
+        es = specgen.gen_plain_einsum(rng, max_ranks=3, max_terms=1, max_factors=3, take_p=0.0, rank0_p=0.0)
+        mp = specgen.random_mapping(rng, es)
+        it = {"yaml": specgen.yaml_of(es["decl"], [es["expr"]], mp), "syms": {}, "kind": "plain", "es": es, "mapping": mp}
+        w = specgen_hw.wrap_single(rng, it)
+        if w is None:
+            continue
+        try:
+            spec = runlib.Spec(w["yaml"])
+            text = spec.compile(arch=True)
+        except Exception as e:
+            k = type(e).__name__ + ": " + str(e)[:60]
+            stats["compile_errors"][k] = stats["compile_errors"].get(k, 0) + 1
+            continue
+        stats["hardware"] += 1
+        lf = patterns.lf_payload_problems(text)
+        for j in range(2 + (6 if lf else 0)):
+            ext = runlib.default_extents(spec, rng, 1, 4)
+            data, scal = runlib.gen_inputs(spec, ext, rng, density=rng.choice([1.0, 0.6]))
+            out.append(execlib.Case(spec, text, ext, data, scal, meta={"hardware": True, "lf": lf, "shape": it["es"]["shape"]}))
+    return out
+
+
 def run(ctx):
     specs = population(ctx)
     cases, stats = make_cases(ctx, specs, 2 if ctx.quick() else 3)
     aff = affine_cases(ctx, stats)
     flat = flatten_cases(ctx, stats)
-    execlib.evaluate(cases + aff + flat, "c01")
+    hw = hardware_cases(ctx, stats)
+    execlib.evaluate(cases + aff + flat + hw, "c01")
+    seen_lf = set()
+    for c in hw:
+        ok = c.result["status"] == "RAN" and c.result["out"] == "OK"
+        if not ok:
+            ctx.violation({"kind": "wrong-result" if c.result["status"] == "RAN" else "execution-error", "hardware": True,
+                           "error": str(c.result.get("err", ""))[:30]},
+                          "the loop nest compiled with an architecture (intersector bound) does not compute the Einsum: %s" % str(c.result)[:300], c.replay())
+        elif c.meta["lf"] and c.text not in seen_lf and all(d.result["status"] == "RAN" and d.result["out"] == "OK" for d in hw if d.text == c.text):
+            seen_lf.add(c.text)
+            ctx.violation({"kind": "lf-payload-order"}, "leader-follower payload pattern does not follow the argument order of Fiber.intersection: %s; "
+                          "all sampled executions agree with the oracle" % str(c.meta["lf"][0])[:200], c.replay(), no_input=True)
     for c in flat:
         if not (c.result["status"] == "RAN" and c.result["out"] == "OK"):
             key = {"kind": "wrong-result" if c.result["status"] == "RAN" else "execution-error", "flatten_only": True}
